@@ -547,6 +547,7 @@ func run(c *mc.Ctx) {
 	expandedVsSingle(c)
 	expandedReuse(c)
 	entropyUse(c)
+	zeroValueExpanded(c)
 	resetGenerations(c)
 	batchHistories(c)
 	batchMacro(c)
@@ -699,12 +700,70 @@ func (r *countingReader) Read(p []byte) (int, error) {
 	return k, nil
 }
 
+// newBV rotates through the exported constructors: a batch verifier's behaviour must not depend on how it was made.
+func newBV(i int) *ed25519.BatchVerifier {
+	switch i % 4 {
+	case 1:
+		return ed25519.NewBatchVerifierWithCapacity(0)
+	case 2:
+		return ed25519.NewBatchVerifierWithCapacity(1)
+	case 3:
+		return ed25519.NewBatchVerifierWithCapacity(7)
+	}
+	return ed25519.NewBatchVerifier()
+}
+
+// zeroValueExpanded: an ExpandedPublicKey that was never initialised (the zero value, a caller's forgotten
+// NewExpandedPublicKey) is not a valid key under any option set: plain expanded verification and a batch member must
+// both answer false, without a panic, and must not disturb the other members of the batch.
+func zeroValueExpanded(c *mc.Ctx) {
+	msg := []byte("c09 zero-value expanded key")
+	sk := ed25519.NewKeyFromSeed(mc.Bytes(c.Seed, "c09zero", 0, 32))
+	pk := sk.Public().(ed25519.PublicKey)
+	sig := ed25519.Sign(sk, msg)
+	presets := []*ed25519.VerifyOptions{nil, ed25519.VerifyOptionsDefault, ed25519.VerifyOptionsStdLib, ed25519.VerifyOptionsFIPS_186_5, ed25519.VerifyOptionsZIP_215}
+	sigs := [][]byte{sig, make([]byte, 64), append(append([]byte{1}, make([]byte, 31)...), make([]byte, 32)...)}
+	c.Par("zero-value-expanded-key", len(presets)*len(sigs)*4, func(w *mc.W, i int) {
+		vo, sg, mode := presets[i%len(presets)], sigs[i/len(presets)%len(sigs)], i/(len(presets)*len(sigs))
+		opts := &ed25519.Options{Verify: vo}
+		var single, all, only bool
+		var each []bool
+		var pv interface{}
+		func() {
+			defer func() { pv = recover() }()
+			single = ed25519.VerifyExpandedWithOptions(&ed25519.ExpandedPublicKey{}, msg, sg, opts)
+			v := newBV(i)
+			if mode&1 == 1 {
+				v.ForceNoPublicKeyExpansion()
+			}
+			v.AddWithOptions(pk, msg, sig, opts)
+			v.AddExpandedWithOptions(&ed25519.ExpandedPublicKey{}, msg, sg, opts)
+			if mode&2 == 2 {
+				v.AddWithOptions(pk, msg, sig, opts)
+			}
+			only = v.VerifyBatchOnly(bytes.NewReader(make([]byte, 64)))
+			all, each = v.Verify(bytes.NewReader(make([]byte, 64)))
+		}()
+		w.Eval("zero-value-expanded-key", true)
+		cas := map[string]interface{}{"preset": i % len(presets), "signature": mc.Hex(sg), "mode": mode}
+		if pv != nil {
+			w.Fail("ExpandedPublicKey/zero-value-panic", fmt.Sprintf("zero-value ExpandedPublicKey: panic %v", pv), cas)
+			return
+		}
+		okEach := len(each) == 2+mode/2 && each[0] && !each[1] && (mode&2 == 0 || each[2])
+		if single || all || only || !okEach {
+			w.Fail("ExpandedPublicKey/zero-value-accepted", fmt.Sprintf("zero-value ExpandedPublicKey (sig %x..., preset #%d, mode %d): VerifyExpanded=%v batch all=%v only=%v each=%v; want false,false,false,[true false ...]",
+				sg[:4], i%len(presets), mode, single, all, only, each), cas)
+		}
+	})
+}
+
 func entropyUse(c *mc.Ctx) {
 	chunks := []int{1, 2, 7, 16, 31, 32, 33, 64}
 	sizes := []int{1, 2, 3, 95, 96}
 	c.Par("entropy-use", len(chunks)*len(sizes)*2, func(w *mc.W, i int) {
 		ch, n, only := chunks[i%len(chunks)], sizes[(i/len(chunks))%len(sizes)], i/(len(chunks)*len(sizes)) == 1
-		v := ed25519.NewBatchVerifier()
+		v := newBV(i)
 		var m []ment
 		step(v, &m, bop{kind: 9, n: n, pat: 0}, c.Seed)
 		rd := &countingReader{chunk: ch, src: mc.Bytes(c.Seed, "entropy-use", 0, 97)}
@@ -770,7 +829,7 @@ func resetGenerations(c *mc.Ctx) {
 	c.Rep.Extra["reset-generations"] = map[string]int{"generation1": len(gen1), "generation2": len(g2)}
 	c.Par("reset-generations", len(gen1)*2*len(g2), func(w *mc.W, i int) {
 		gi, force, hi := i/(2*len(g2)), (i/len(g2))%2 == 1, i%len(g2)
-		v := ed25519.NewBatchVerifier()
+		v := newBV(i)
 		var m []ment
 		var hops []bop
 		do := func(o bop) {
@@ -990,7 +1049,7 @@ func batchMacro(c *mc.Ctx) {
 	}
 	c.Par("batch-macro", len(hs), func(w *mc.W, i int) {
 		h := hs[i]
-		v := ed25519.NewBatchVerifier()
+		v := newBV(i)
 		var m []ment
 		var hops []bop
 		do := func(o bop) {
